@@ -620,6 +620,11 @@ def rule_cloner(ctx, R):
         rp = rets[0]
         ret = N(rp.ret)
         d = dict(ret[4]) if ret[0] == "agg" else {}
+        RL = None  # the local the clone is built in, when it is built in place on the constructor's result
+        if ret[0] != "agg":
+            ip = inplace_summary(ctx, S, f, rp, loops, ret)
+            if ip is not None:
+                RL, d = ip
         for fld in ("len", "version", "capacity", "free_head"):
             v = d.get(fld)
             R.check(v is not None and strip_epochs(v) == strip_epochs(sf(fld)), "C13-R1", key + "|field(%s)" % fld, "%s copied from the source" % fld,
@@ -650,6 +655,9 @@ def rule_cloner(ctx, R):
         R.check(sorted(set(barr_any)) == sorted(S.columns) and all(rp.effects.index(e) < first_alloc for e in bor_any), "C04-R8", key + "|guards-before-cloning", "every column guard is taken before the first allocation",
                 "clone takes the guards of %s at positions after its first allocation / clone; a borrow panic there abandons the values cloned so far" % barr_any, where_of(f), fn=f.key)
         bm = [e for p in ps for e in p.effects if e[0] == "call" and (cname(e[2]).endswith("RefCell::borrow_mut") or cname(e[2]).endswith("RefCell::get_mut") or cname(e[2]).endswith("RefCell::as_ptr"))]
+        if RL is not None:
+            # exclusive access to the columns of the clone under construction is not access to a column of the source
+            bm = [e for e in bm if result_field(N(e[3][0]), RL) is None]
         R.check(not bm, "C11-R2", key + "|no-exclusive", "clone never takes a column exclusively or unguarded", "clone calls %s on a column" % [cname(e[2]) for e in bm], where_of(f), fn=f.key)
         # loops
         cap_rng = ("agg", "adt", "std::ops::Range", "Range", (("start", ("const", 0)), ("end", sf("capacity"))), 0)
@@ -675,7 +683,7 @@ def rule_cloner(ctx, R):
                     # destination must be the fresh array that ends up in the same field
                     dst = N(e[3][0])
                     fin = d.get(arr)
-                    ok = ok and fin is not None and same_local(dst, fin)
+                    ok = ok and fin is not None and (same_local(dst, fin) if RL is None else result_field(dst, RL) == arr)
                 seen_arrays.append(arr)
                 R.check(ok, "C13-R2", key + "|copy(%s)" % arr, "cell i of %s cloned into cell i of the new %s for i in 0..%s" % (arr, arr, "capacity" if arr == S.slots else "len"),
                         "copy loop writes %s[%s] <- %s; expected element-wise clone over Range(0, %s) into the array that becomes the clone's %s" % (arr, show(idx)[:80], show(val)[:120], "capacity" if arr == S.slots else "len", arr), where_of(f, e[5]), fn=f.key)
@@ -688,7 +696,7 @@ def rule_cloner(ctx, R):
         R.check(sorted(x or "?" for x in seen_arrays) == sorted(want), "C04-R5", key + "|copy-set", "each array copied by exactly one loop write",
                 "loop writes cover %s; expected exactly one per array %s" % (seen_arrays, want), where_of(f), fn=f.key)
         # cloner does not write self
-        st = [e for p in ps for e in p.effects if e[0] == "store" and e[5] == f.key]
+        st = [e for p in ps for e in p.effects if e[0] == "store" and e[5] == f.key and not (RL is not None and loc_root(e[1]) == ("local", 0, RL))]
         R.check(not st, "C13-R3", key + "|source-untouched", "clone performs no store through self", "clone stores through a pointer: %s" % [show(("load", NL(e[1]), 0)) for e in st[:3]], where_of(f), fn=f.key)
     dp = ctx.gecs.adts.get("archetype::storage::DataPtr")
     impls = [i for i in ctx.gecs.impls if i["self"].startswith("archetype::storage::DataPtr<") and i.get("trait") in ("std::clone::Clone", "std::marker::Copy")]
@@ -702,6 +710,83 @@ def array_field_of(L):
             return cur[2]
         cur = cur[1] if cur[0] in ("field", "downcast", "index", "cindex") else None
     return None
+
+
+def loc_root(L):
+    while isinstance(L, tuple) and L and L[0] in ("field", "vfield", "index", "downcast") and len(L) > 1 and isinstance(L[1], tuple):
+        L = L[1]
+    return L
+
+
+def result_field(dst, RL):
+    """the field F when dst designates `result.F` of the local RL the clone is built in (`&mut result.F`, `result.F.get_mut()`)"""
+    if dst[0] == "ref" and isinstance(dst[1], tuple) and dst[1][0] == "field" and dst[1][1] == ("local", 0, RL):
+        return dst[1][2]
+    for x in subterms(dst):
+        if x[0] == "field" and x[1] == ("local", 0, RL):
+            return x[2]
+        if x[0] == "vfield" and isinstance(x[1], tuple):
+            y = x[1]
+            while y[0] == "loopvar":
+                if y[2] == RL:
+                    return x[2]
+                y = y[3]
+    return None
+
+
+def subst_arg(t, arg):
+    """replace the constructor's own parameter (`arg 1`) by the actual argument of the call"""
+    if not isinstance(t, tuple):
+        return t
+    if t == ("arg", 1):
+        return arg
+    return tuple(subst_arg(x, arg) for x in t)
+
+
+def inplace_summary(ctx, S, f, rp, loops, ret):
+    """A clone built in place: `let mut result = Self::with_capacity(X); ...field stores / loop writes...; result`.
+    -> (result local, {field: final value}) where the base values are those of the constructor's own returned struct literal (with its
+    parameter replaced by X), overlaid by the stores into `result.<field>` on the returning path; `len` may also be advanced in the dense
+    copy loop (`result.len = idx + 1` over 0..self.len, from the constructor's 0), which leaves it at self.len when the loop is done.
+    None when the shape is anything else."""
+    core_ = ret
+    RL = None
+    while core_[0] == "loopvar":
+        RL = core_[2]
+        core_ = core_[3]
+    ctors = roles(ctx, S).get("ctor") or []
+    if RL is None or len(ctors) != 1 or not (core_[0] == "call" and cname(core_[1]).endswith("::with_capacity") and "Storage" in core_[1] and len(core_[2]) == 1):
+        return None
+    cps = ctx.paths(ctors[0])
+    crets = [p for p in (cps or []) if p.end == "return"]
+    if len(crets) != 1:
+        return None
+    cagg = N(crets[0].ret)
+    if cagg[0] != "agg":
+        return None
+    arg = core_[2][0]
+    d = {k: subst_arg(v, arg) for k, v in dict(cagg[4]).items()}
+    for e in rp.effects:
+        if e[0] == "store" and e[1][0] == "field" and e[1][1] == ("local", 0, RL):
+            d[e[1][2]] = N(e[2])
+        elif e[0] == "call" and cname(e[2]).endswith("clone_from") and len(e[3]) == 2:
+            fld = result_field(N(e[3][0]), RL)
+            src = N(e[3][1])
+            if fld is not None and src == ("ref", floc(fld)):
+                d[fld] = ("call", "std::clone::Clone::clone", (src,))
+    for lp in loops:
+        marks = [i for i, e in enumerate(lp.effects) if e[0] == "loop"]
+        start = marks[-1] if marks else 0
+        for e in lp.effects[start:]:
+            if not (e[0] == "store" and loc_root(e[1]) == ("local", 0, RL)):
+                continue
+            fld = e[1][2] if e[1][0] == "field" and e[1][1] == ("local", 0, RL) else None
+            v = N(e[2])
+            if fld == "len" and d.get("len") == ("const", 0) and v[0] == "bin" and v[1] == "Add" and v[3] == ("const", 1) and index_extent(v[2]) is not None and strip_epochs(index_extent(v[2])) == strip_epochs(sf("len")):
+                d["len"] = sf("len")
+            elif fld is not None:
+                d[fld] = ("unknown-loop-store", fld)
+    return RL, d
 
 
 def same_local(dst, fin):
@@ -960,6 +1045,24 @@ CELL_BAD = ("RefCell::as_ptr", "RefCell::try_borrow_unguarded", "RefCell::try_bo
             "RefCell::into_inner", "RefCell::replace_with", "RefCell::undo_leak", "Ref::leak", "RefMut::leak", "UnsafeCell::get", "UnsafeCell::raw_get", "mem::forget", "ManuallyDrop::new", "Box::leak")
 
 
+def owned_value(t):
+    """the receiver term designates (a field of) a value the function itself produced -- the result of a call, or a local built from
+    one -- and not something reached through the receiver `self`"""
+    for _ in range(12):
+        if t[0] in ("vfield",) and isinstance(t[1], tuple):
+            t = t[1]
+        elif t[0] == "loopvar":
+            t = t[3]
+        elif t[0] == "ref" and isinstance(t[1], tuple):
+            r = loc_root(t[1])
+            return r[0] == "local"
+        elif t[0] == "call":
+            return True
+        else:
+            return False
+    return False
+
+
 def rule_cells(ctx, R):
     borrows = borrow_units(ctx)
     for S in ctx.storages():
@@ -980,7 +1083,8 @@ def rule_cells(ctx, R):
                         col = receiver_array_any(e[3][0], root)
                         kind = cn.split("::")[-1]
                         acq.add((col, kind))
-                        if kind == "get_mut" and f.kind == "AssocFn":
+                        # (get_mut on a storage the function owns -- a clone under construction -- is not access to a column of the receiver)
+                        if kind == "get_mut" and f.kind == "AssocFn" and not owned_value(N(e[3][0])):
                             R.check(not shared_recv, "C11-R1", "%s::%s|get_mut-needs-exclusive" % (S.name, label), "get_mut under &mut self", "RefCell::get_mut reached from a shared receiver", where_of(f, e[5]), fn=f.key)
             judge_acquisition(R, S, label, f, acq)
     for (bname, srcfield, label, f, ps, root) in borrows:
